@@ -43,7 +43,7 @@ def build_demo(d, tag):
     if os.path.exists(bs):
         txt = open(bs).read()
         txt = re.sub(r"/tmp/mut/wt-C\d\d", WT, txt)
-        txt = re.sub(r"/tmp/mut/out2?/C\d\d/m\d", work, txt)
+        txt = re.sub(r"/tmp/mut/out\d?/C\d\d/m\d", work, txt)
         open(os.path.join(work, "build.sh"), "w").write(txt)
         cmd = "sh ./build.sh"
     else:
